@@ -100,6 +100,8 @@ def run(ctx):
                                                      force_float_first=('D' if cid[1] % 4 == 0 else True) if cid[1] % 2 == 0 else False,   # single / double precision
                                                      permute_columns=0.9 if cid[1] % 2 else 0.2,   # cell files laid out unlike the beads file
                                                      big_first=cid[1] % 8 == 6,                    # a cell file of 70 001 events
+                                                     n_samples=int(rng.integers(2, 5)) if cid[1] % 4 in (2, 3) else None,
+                                                     blank_units_last=cid[1] % 4 in (2, 3),        # last row: no fluorescence channel reported
                                                      units_pool=(['Channel', 'Channel', 'RFI', 'a.u.', 'MEF', 'au'] if cid[1] % 4 == 3      # raw-channel cells before converted ones
                                                                  else excelgen.UNITS))
         if cid[1] % 4 in (1, 3):
